@@ -16,6 +16,8 @@ pub struct Spec {
     pub co: u8,
     /// render the source through a tilemap layer (one 1x1 tile per source pixel) instead of an image layer
     pub via_tilemap: bool,
+    /// flag word of the source layer (3 = visible + editable)
+    pub flags: u16,
 }
 
 pub fn sprite(mode: u16, sp: &Spec) -> Vec<u8> {
@@ -25,6 +27,7 @@ pub fn sprite(mode: u16, sp: &Spec) -> Vec<u8> {
     let mut top = Layer::image("source");
     top.blend = mode;
     top.opacity = sp.lo;
+    top.flags = sp.flags;
     f.frames[0].push(Body::Layer(top));
     let bb: Vec<u8> = sp.b.iter().flat_map(|p| p.to_le_bytes()).collect();
     let sb: Vec<u8> = sp.s.iter().flat_map(|p| p.to_le_bytes()).collect();
@@ -189,7 +192,7 @@ pub fn families(tier: Tier) -> Vec<Family> {
             modes: all.clone(),
             build: Box::new(move |i| {
                 let (b, s) = channel_grid(p[i].0, p[i].1);
-                Spec { w: 256, h: 256, b, s, lo: 255, co: 255, via_tilemap: false }
+                Spec { w: 256, h: 256, b, s, lo: 255, co: 255, via_tilemap: false, flags: 3 }
             }),
         });
     }
@@ -204,7 +207,7 @@ pub fn families(tier: Tier) -> Vec<Family> {
             modes: all.clone(),
             build: Box::new(move |i| {
                 let (b, s) = small_grid();
-                Spec { w: 72, h: 72, b, s, lo: ops[i].0, co: ops[i].1, via_tilemap: false }
+                Spec { w: 72, h: 72, b, s, lo: ops[i].0, co: ops[i].1, via_tilemap: false, flags: 3 }
             }),
         });
     }
@@ -219,7 +222,7 @@ pub fn families(tier: Tier) -> Vec<Family> {
                 let al = [(255u8, 255u8), (128, 255), (255, 128), (1, 1)];
                 let (b, s) = lattice_grid(&[0, 1, 127, 128, 255], &al[i..i + 1]);
                 let (w, h) = shape(b.len());
-                Spec { w, h, b, s, lo: 255, co: 255, via_tilemap: false }
+                Spec { w, h, b, s, lo: 255, co: 255, via_tilemap: false, flags: 3 }
             }),
         });
     }
@@ -234,7 +237,7 @@ pub fn families(tier: Tier) -> Vec<Family> {
                 let al = [(255u8, 255u8), (128, 200), (200, 77)];
                 let (b, s) = lattice_grid(&[0, 36, 73, 109, 146, 182, 219, 255], &al[i..i + 1]);
                 let (w, h) = shape(b.len());
-                Spec { w, h, b, s, lo: 255, co: [255u8, 254, 100][i], via_tilemap: false }
+                Spec { w, h, b, s, lo: 255, co: [255u8, 254, 100][i], via_tilemap: false, flags: 3 }
             }),
         });
     }
@@ -249,7 +252,24 @@ pub fn families(tier: Tier) -> Vec<Family> {
             modes: all.clone(),
             build: Box::new(move |i| {
                 let (b, s) = small_grid();
-                Spec { w: 72, h: 72, b, s, lo: ops[i].0, co: ops[i].1, via_tilemap: true }
+                Spec { w: 72, h: 72, b, s, lo: ops[i].0, co: ops[i].1, via_tilemap: true, flags: 3 }
+            }),
+        });
+    }
+    // Q6: source layer carrying other flag bits (background / locked / continuous / collapsed / reference)
+    {
+        let fl: Vec<u16> = vec![1 | 4 | 8, 1 | 8, 1 | 2 | 0x10 | 0x20 | 0x40, 0xFFFF];
+        let ops: Vec<(u8, u8)> = vec![(255, 255), (200, 77), (255, 0)];
+        let n = fl.len() * ops.len();
+        v.push(Family {
+            name: "Q6-layer-flags",
+            what: "the small grid with the source layer's flag word in {visible+locked+background, visible+background, visible+all other defined bits, 0xFFFF} x 3 opacity pairs: no flag other than `visible` takes part in blending".into(),
+            n,
+            modes: all.clone(),
+            build: Box::new(move |i| {
+                let (b, s) = small_grid();
+                let (lo, co) = ops[i % ops.len()];
+                Spec { w: 72, h: 72, b, s, lo, co, via_tilemap: false, flags: fl[i / ops.len()] }
             }),
         });
     }
@@ -262,7 +282,7 @@ pub fn families(tier: Tier) -> Vec<Family> {
             modes: separable.clone(),
             build: Box::new(move |i| {
                 let (b, s) = channel_grid((i >> 8) as u8, i as u8);
-                Spec { w: 256, h: 256, b, s, lo: 255, co: 255, via_tilemap: false }
+                Spec { w: 256, h: 256, b, s, lo: 255, co: 255, via_tilemap: false, flags: 3 }
             }),
         });
         // T2: layer opacity sweep x Q1
@@ -278,9 +298,9 @@ pub fn families(tier: Tier) -> Vec<Family> {
                     let (ba, sa) = p[i % p.len()];
                     let (b, s) = channel_grid(ba, sa);
                     if o % 8 == 3 {
-                        Spec { w: 256, h: 256, b, s, lo: 255, co: o, via_tilemap: false }
+                        Spec { w: 256, h: 256, b, s, lo: 255, co: o, via_tilemap: false, flags: 3 }
                     } else {
-                        Spec { w: 256, h: 256, b, s, lo: o, co: 255, via_tilemap: false }
+                        Spec { w: 256, h: 256, b, s, lo: o, co: 255, via_tilemap: false, flags: 3 }
                     }
                 }),
             });
@@ -303,7 +323,7 @@ pub fn families(tier: Tier) -> Vec<Family> {
                         s.push(px(((sc >> 8) * 17) as u8, (((sc >> 4) & 15) * 17) as u8, ((sc & 15) * 17) as u8, sa));
                     }
                 }
-                Spec { w: 256, h: 256, b, s, lo: 255, co: 255, via_tilemap: false }
+                Spec { w: 256, h: 256, b, s, lo: 255, co: 255, via_tilemap: false, flags: 3 }
             }),
         });
         v.push(Family {
@@ -331,7 +351,7 @@ pub fn families(tier: Tier) -> Vec<Family> {
                         }
                     }
                 }
-                Spec { w: 256, h: 256, b, s, lo: 255, co: 255, via_tilemap: false }
+                Spec { w: 256, h: 256, b, s, lo: 255, co: 255, via_tilemap: false, flags: 3 }
             }),
         });
         // T4: all 65,536 opacity pairs for Normal and Multiply
@@ -342,7 +362,7 @@ pub fn families(tier: Tier) -> Vec<Family> {
             modes: vec![0, 1],
             build: Box::new(move |i| {
                 let (b, s) = small_grid();
-                Spec { w: 72, h: 72, b, s, lo: (i >> 8) as u8, co: i as u8, via_tilemap: false }
+                Spec { w: 72, h: 72, b, s, lo: (i >> 8) as u8, co: i as u8, via_tilemap: false, flags: 3 }
             }),
         });
     }
